@@ -49,13 +49,27 @@ def check_lines_premises(prog: Program, res: Result) -> None:
     res.ob(R, ok, fi.qualname, "rows clipped to height-1, columns to width-1", "indices are not clipped to the PAF extent (row<->height, col<->width)", fi.where)
     gp = prog.func(f"{PG}:get_paf_lines")
     res.touch(gp)
-    hwd = [s for s in walk_function(gp.node) if isinstance(s, ast.Assign) and norm(s.targets[0]) == "pafs_hw"]
-    res.ob(R, len(hwd) == 1 and norm(hwd[0].value) == "pafs_sample.shape[:2]", gp.qualname, "PAF extent = first two axes (channel-last)", "pafs_hw is not pafs_sample.shape[:2]", gp.where)
-    idx = [n for n in walk_function(gp.node) if isinstance(n, ast.Subscript) and norm(n.value) == "pafs_sample"]
-    ok = len(idx) == 1 and norm(idx[0].slice).replace(" ", "") in ("(line_subs[...,0],line_subs[...,1],line_subs[...,2])", "line_subs[...,0],line_subs[...,1],line_subs[...,2]")
-    res.ob(R, ok, gp.qualname, "PAFs read at [row, col, channel]", "get_paf_lines does not index pafs_sample[row, col, channel]", gp.where)
     calls = [c for c, q in prog.calls_in(gp) if q == fi.qualname]
-    ok = len(calls) == 1 and [norm(a) for a in calls[0].args] == ["peaks_sample", "edge_peak_inds", "edge_inds", "n_line_points", "pafs_stride", "pafs_hw"]
+    bound = astq.bind_args(fi, calls[0]) if len(calls) == 1 else {}
+    at_ = enclosing_stmt(calls[0]) if len(calls) == 1 else None
+    X_ = lambda e_: astq.dims(norm(astq.expand_at(gp.node, e_, at_))).replace(" ", "") if e_ is not None and at_ is not None else None
+    hw_ = X_(bound.get("pafs_hw"))
+    res.ob(R, hw_ in ("pafs_sample.shape[:2]", "(pafs_sample.shape[0],pafs_sample.shape[1])", "pafs_sample.shape[0:2]"), gp.qualname, "PAF extent = first two axes (channel-last)",
+           f"pafs_hw is `{hw_}`, not pafs_sample.shape[:2]", gp.where)
+    idx = [n for n in walk_function(gp.node) if isinstance(n, ast.Subscript) and norm(n.value) == "pafs_sample" and isinstance(n.ctx, ast.Load) and not isinstance(n.slice, ast.Slice)]
+    ok = len(idx) == 1 and isinstance(idx[0].slice, ast.Tuple) and len(idx[0].slice.elts) == 3
+    if ok:
+        comps = [astq.expand_at(gp.node, e_, enclosing_stmt(idx[0]), unpack_calls=True, keep=["line_subs"]) for e_ in idx[0].slice.elts]
+        def _k(c_):   # which component of the trailing [row, col, channel] axis of line_subs
+            t_ = norm(c_).replace(" ", "")
+            for k_ in range(3):
+                if t_ in (f"line_subs[...,{k_}]", f"line_subs.unbind(dim=-1)[{k_}]", f"line_subs.unbind(-1)[{k_}]", f"torch.unbind(line_subs,dim=-1)[{k_}]", f"line_subs[:,:,{k_}]"):
+                    return k_
+            return None
+        ok = [_k(c_) for c_ in comps] == [0, 1, 2]
+    res.ob(R, ok, gp.qualname, "PAFs read at [row, col, channel]", "get_paf_lines does not index pafs_sample[row, col, channel]", gp.where)
+    want_ = {"peaks_sample": "peaks_sample", "edge_peak_inds": "edge_peak_inds", "edge_inds": "edge_inds", "n_line_points": "n_line_points", "pafs_stride": "pafs_stride"}
+    ok = len(calls) == 1 and all(X_(bound.get(k_)) == v_ for k_, v_ in want_.items()) and not any(astq.assignments_to(gp.node, v_) for v_ in want_.values())
     res.ob(R, ok, gp.qualname, "stride and extent forwarded to make_line_subs", "get_paf_lines does not forward pafs_stride / pafs_hw unchanged", gp.where)
     # stride handed down from the scorer
     sc = prog.cls(f"{PG}:PAFScorer").methods.get("score_paf_lines")
@@ -91,7 +105,7 @@ def check_lines_premises(prog: Program, res: Result) -> None:
     fc = prog.cls(f"{PG}:PAFScorer").methods.get("from_config")
     res.touch(fc)
     cc = [c for c in walk_function(fc.node) if isinstance(c, ast.Call) and norm(c.func) == "cls"]
-    kw = {k.arg: astq.xnorm(fc.node, k.value) for k in cc[0].keywords} if len(cc) == 1 else {}
+    kw = {k.arg: astq.xnorm(fc.node, k.value) for k in astq.call_keywords(fc.node, cc[0])} if len(cc) == 1 else {}
     ok = kw.get("pafs_stride") == "config.pafs.output_stride" and kw.get("part_names") == "config.confmaps.part_names" and kw.get("edges") == "config.pafs.edges"
     res.ob(R, ok, fc.qualname, "pafs_stride/edges from the PAF head config, part_names from the confmap head config", f"PAFScorer.from_config binds {kw}", fc.where)
     # ... and every scoring parameter of from_config reaches the constructor field of the same name unchanged (a value
